@@ -5,8 +5,8 @@
 set -u
 ID=$1; PROP=$2; TIER=${3:-quick}
 cd /verif
-git -C /repo diff --quiet -- . ':!_build' || { echo "/repo has local modifications, refusing"; exit 2; }
-git -C /repo apply seeded/$ID/patch.diff || { echo "patch does not apply"; exit 2; }
+git -C /repo diff --quiet || { echo "/repo has local modifications, refusing"; exit 2; }
+git -C /repo apply /verif/seeded/$ID/patch.diff || { echo "patch does not apply"; exit 2; }
 START=$(date +%s)
 ./check $PROP --tier $TIER > /tmp/detect-$ID-$PROP.log 2>&1; RC=$?
 git -C /repo checkout -- . 
